@@ -398,6 +398,39 @@ func Run(r *fw.Run) {
 		}
 		r.Merge(l)
 	})
+	// long lists: lengths around the thresholds at which sorting code changes strategy (insertion sort up
+	// to 12, pre-parsing above some size, ...), built from a pool with invalid strings that fail at different
+	// points of the grammar, in several arrangements
+	{
+		l := fw.NewLocal()
+		lp := append(append([]string{}, sp...), "v2.x", "v1.0.0-", "v3", "v1.2.3.4", "v01.0.0", "v1.0.0-01", "vv", "v1.0.0+", "v10.0.0", "v9.0.0", "v1.10.0", "v1.9.0", "v1.0.0-rc.10", "v1.0.0-rc.9")
+		r.Bounds["sort_long_lists"] = "lengths 11..14, 31..34, 63..66, 127..130, 1000; 4 arrangements each"
+		for _, n := range []int{11, 12, 13, 14, 31, 32, 33, 34, 63, 64, 65, 66, 127, 128, 129, 130, 1000} {
+			for arr := 0; arr < 4; arr++ {
+				list := make([]string, n)
+				for i := range list {
+					switch arr {
+					case 0:
+						list[i] = lp[i%len(lp)]
+					case 1:
+						list[i] = lp[(n-1-i)%len(lp)]
+					case 2:
+						list[i] = lp[(i*7+3)%len(lp)]
+					default:
+						list[i] = lp[(i*i+arr)%len(lp)]
+					}
+				}
+				l.Execs++
+				l.States++
+				l.Transitions++
+				l.Nontrivial++
+				if msg := sortCase(list); msg != "" {
+					r.Violation(fmt.Sprintf("sort-long:%d:%d", n, arr), msg, caseT{"sort", q(list...)})
+				}
+			}
+		}
+		r.Merge(l)
+	}
 	r.Sample(map[string]any{"kind": "sort", "list": []string{"v1.0.0+b", "v1", "v1.0.0-10", "v1.0.0-9"}})
 }
 
